@@ -21,7 +21,10 @@ def run_one(m):
         def ign(d, names):
             return [n for n in names if n == '.git' or n.endswith(('.o', '.so', '.a', '.bin')) or (n == 'eav' and os.path.isfile(os.path.join(d, n)))]
         shutil.copytree(REPO, dst, ignore=ign)
-        for ed in m.get('edits', [m]):
+        if m.get('patch'):
+            r = subprocess.run(['patch', '-p1', '-s', '-i', m['patch']], cwd=dst, capture_output=True, text=True)
+            if r.returncode != 0: return m, 'STALE', 'patch does not apply: ' + (r.stdout + r.stderr)[-300:]
+        for ed in ([] if m.get('patch') else m.get('edits', [m])):
             path = os.path.join(dst, ed['file'])
             text = open(path, encoding='utf-8').read()
             n = text.count(ed['find'])
@@ -54,6 +57,14 @@ def main():
     ap = argparse.ArgumentParser(); ap.add_argument('--only'); ap.add_argument('-j', type=int, default=8)
     a = ap.parse_args()
     ms = json.load(open(os.path.join(HERE, 'mutants.json')))['mutants']
+    # changes written by independent sub-agents (seeded/<id>/): each must still be caught by the checks recorded for it
+    import glob
+    for mp in sorted(glob.glob(os.path.join(VERIF, 'seeded', '*', 'meta.json'))):
+        meta = json.load(open(mp))
+        for pid, f in sorted(meta.get('checks_fired', {}).items()):
+            if f.get('exit') != 1 or not f.get('rules'): continue
+            ms.append({'id': f'{meta["seed_id"]}:{pid}', 'property': pid, 'expect_rule': f['rules'][0], 'patch': os.path.join(os.path.dirname(mp), 'patch.diff'),
+                       'note': 'seeded: ' + meta.get('change', '')[:90]})
     if a.only:
         ms = [m for m in ms if m['id'].startswith(a.only) or a.only in (m['property'] if isinstance(m['property'], list) else [m['property']])]
     bad = 0
